@@ -119,6 +119,9 @@ def corruptions():
         add(d, "duplicate literal", '#[%s("a")] #[%s("b")] %s' % (a, a, st))
         add(d, "duplicate literal on a variant", 'enum E { #[%s("a")] #[%s("b")] A, #[%s("c")] B }' % (a, a, a))
         add(d, "legacy fmt =", '#[%s(fmt = "{}", _0)] %s' % (a, st))
+        add(d, "legacy fmt =", '#[%s(fmt = "{} {}", "_0", "self.0")] %s' % (a, st))
+        add(d, "legacy fmt =", '#[%s(fmt = "{}", 1)] %s' % (a, st))
+        add(d, "legacy fmt =", '#[%s(fmt = "x")] %s' % (a, st))
         add(d, "legacy bound =", '#[%s("{_0}")] #[%s(bound = "T: Clone")] struct S<T>(T);' % (a, a))
         add(d, "name-value form", '#[%s = "x"] %s' % (a, st))
         add(d, "literal is not a string", "#[%s(1)] %s" % (a, st))
@@ -148,6 +151,10 @@ def corruptions():
     add("From", "empty on a struct", "#[from] struct S(u8);")
     add("From", "legacy types()", "#[from(types(u8))] struct S(u16);")
     add("From", "legacy types() with strings", '#[from(types("u8"))] struct S(u16);')
+    add("From", "legacy types()", "#[from(types(u8, u16))] struct S(u32, u32);")
+    add("From", "legacy types()", "#[from(types(u8))] struct S {}")
+    add("From", "legacy types()", "#[from(types())] struct S(u16);")
+    add("From", "legacy types()", "enum E { #[from(types(u8))] A(u16), B(u8, u8) }")
     add("From", "tuple arity", "#[from((u8, u8, u8))] struct S(u16, u16);")
     add("From", "not a tuple for two fields", "#[from(u8)] struct S(u16, u16);")
     add("From", "union", "union U { a: u8 }")
@@ -158,6 +165,13 @@ def corruptions():
     add("Into", "duplicate skip", "struct S { #[into(skip)] #[into(ignore)] a: u8, b: u8 }")
     add("Into", "legacy types()", "#[into(types(u16))] struct S(u8);")
     add("Into", "legacy owned(types())", "#[into(owned(types(u16)))] struct S(u8);")
+    add("Into", "legacy types()", "#[into(types(u16, u32))] struct S(u8, u8);")
+    add("Into", "legacy types() with strings", '#[into(types("u16"))] struct S(u8);')
+    add("Into", "legacy owned, types()", "#[into(owned, types(u16))] struct S(u8);")
+    add("Into", "legacy owned(types())", "#[into(owned(types(u16)), ref(types(u8)))] struct S(u8, u8);")
+    add("Into", "legacy owned(types())", "#[into(ref_mut(types(u16)))] struct S(u8);")
+    add("Into", "legacy owned(types())", "#[into(owned(types()))] struct S(u8);")
+    add("Into", "legacy types()", "#[into(owned, ref, types(u16))] struct S { a: u8, b: u8 }")
     add("Into", "enum", "enum E { A(u8) }")
     add("Into", "union", "union U { a: u8 }")
     add("Into", "tuple arity", "#[into((u8, u8, u8))] struct S(u16, u16);")
